@@ -68,6 +68,65 @@ class Prop(common.PropertyCheck):
                    'override': False, 'sc_all': False, 'seed': rng.randrange(1 << 30), 'sc_kind': rng.choice(['lambda', 'fitted']), 'nozero': rng.random() < 0.3,
                    'many': True}
 
+        # the Excel pipeline, which converts first and removes saturated events afterwards: its cell samples hold exactly the events that
+        # survive when the saturated events of the scatter and reported channels are removed from the raw sample before any conversion
+        for i in range(self.budget(2, 12)):
+            yield {'k': 'pipeline', 'seed': rng.randrange(1 << 30), 'rows': [
+                {'units': [['RFI', None, 'a.u.'], ['MEF', None, None], [None, 'Channel', None], ['a.u.', 'RFI', None], [None, None, None], ['mef', None, 'RFI']][(i * 3 + j) % 6],
+                 'gf': [0.8, 1.0, 0.5][j % 3]} for j in range(3)]}
+
+    def run_pipeline(self, case):
+        import warnings
+        import excelgen
+        ex = excelgen.Experiment(case['seed'], datatype='I', instruments=1)
+        try:
+            inst = ex.instruments_table()
+            d = ex.inst['FC001']
+            ex.write_fcs('beads1.fcs', 'FC001', kind='beads', n=1400, voltage=450, seed=case['seed'] % 1000 + 1)
+            beads_table = excelgen.table([excelgen.beads_row('B1', 'FC001', 'beads1.fcs', channels=('FL1',), clustering=('FL1',))])
+            srow = []
+            for j, r in enumerate(case['rows']):
+                ex.write_fcs('s%d.fcs' % j, 'FC001', n=700, voltage=450, seed=case['seed'] % 1000 + 10 + j)
+                srow.append(excelgen.sample_row('S%d' % j, 'FC001', 's%d.fcs' % j, {c: u for c, u in zip(d['fl'], r['units']) if u is not None}, 'B1', gate_fraction=r['gf']))
+            samples_table = excelgen.table(srow, columns=['Instrument ID', 'Beads ID', 'File Path', 'Gate Fraction'] + ['%s Units' % c for c in d['fl']])
+            problems = []
+            with warnings.catch_warnings():
+                warnings.simplefilter('ignore')
+                np.random.seed(5)
+                bs, fx, mo = FlowCal.excel_ui.process_beads_table(beads_table, inst, base_dir=ex.dir, full_output=True)
+                FlowCal.excel_ui.add_beads_stats(beads_table, bs, mo)
+                res = FlowCal.excel_ui.process_samples_table(samples_table, inst, mef_transform_fxns=fx, beads_table=beads_table, base_dir=ex.dir)
+                for j, r in enumerate(case['rows']):
+                    got = res['S%d' % j]
+                    if isinstance(got, Exception):
+                        problems.append('row S%d (units %s) of a well-formed table failed: %s' % (j, r['units'], str(got)[:80]))
+                        continue
+                    raw = FlowCal.io.FCSData(ex.dir + '/s%d.fcs' % j)
+                    sc = [d['fsc'], d['ssc']]
+                    report = [c for c, u in zip(d['fl'], r['units']) if u is not None]
+                    g = FlowCal.gate.start_end(raw, num_start=250, num_end=100)
+                    g = FlowCal.gate.high_low(g, sc + report)               # saturated events removed from the raw sample
+                    g = FlowCal.transform.to_rfi(g, sc)
+                    for c, u in zip(d['fl'], r['units']):
+                        if u is None or u.strip().lower() == 'channel':
+                            continue
+                        g = FlowCal.transform.to_rfi(g, c)
+                        if u.strip().lower() == 'mef':
+                            g = fx['B1'](g, c)
+                    g = FlowCal.gate.density2d(g, channels=sc, gate_fraction=r['gf'], xscale='logicle', yscale='logicle')
+                    if got.shape != g.shape or not np.array_equal(np.asarray(got), np.asarray(g)):
+                        problems.append('Excel pipeline, row S%d (units %s, gate fraction %s): %d events; removing the saturated events of %s from the raw sample before the '
+                                        'conversions gives %d events%s' % (j, r['units'], r['gf'], got.shape[0], sc + report, g.shape[0],
+                                                                           '' if got.shape != g.shape else ' with other values'))
+                    elif [got.range(c) for c in got.channels] != [g.range(c) for c in g.channels]:
+                        problems.append('Excel pipeline, row S%d: range limits differ from those of the sample gated before the conversions' % j)
+            return {'problems': problems}
+        except Exception as e:
+            import traceback
+            return {'problems': ['harness: ' + traceback.format_exc()[-300:]], 'err': 'pipeline harness: ' + type(e).__name__ + ': ' + str(e)[:100]}
+        finally:
+            ex.cleanup()
+
     def build(self, case):
         import random
         r = random.Random(case['seed'])
@@ -99,6 +158,8 @@ class Prop(common.PropertyCheck):
         return d, r
 
     def run_impl(self, case):
+        if case.get('k') == 'pipeline':
+            return self.run_pipeline(case)
         d, r = self.build(case)
         D = case['D']
         names = list(d.channels)
@@ -219,6 +280,8 @@ class Prop(common.PropertyCheck):
         if 'err' in impl:
             return 'conversion raised ' + impl['err']
         real = [p for p in impl['problems'] if not p.startswith('harness')]
+        if real and case.get('k') == 'pipeline':
+            return real[0]
         if real:
             return real[0] + ' (res=%s pne=%s gain=%s)' % (case['res'], case['pne'], case['gain'])
         return None
@@ -238,4 +301,6 @@ class Prop(common.PropertyCheck):
         return None
 
     def nontrivial_key(self, case, impl):
+        if case.get('k') == 'pipeline':
+            return ('pipeline', str(case['rows']))
         return (tuple(case['res']), tuple(case['pne']), tuple(case['gain']), case['rfi_ch'], case['mef_ch'], round(case['m'][0], 3), round(case['b'][0], 3))
